@@ -1,6 +1,6 @@
 (* wire commands for the pickle machines *)
 From Coq Require Import List String ZArith Bool Arith.
-From Verif Require Import Base Ops Interp RefVM Shape.
+From Verif Require Import Base Ops Interp RefVM Shape ShowVM.
 Import ListNotations.
 Open Scope string_scope.
 
@@ -18,4 +18,6 @@ Definition handle_vm (cmd : string) (args : list sexp) : option string :=
     with_prog args (fun p => show_trace shape_fk (trace_from p (fk_init 0)))
   else if cmd =? "vm_trace" then
     with_prog args (fun p => show_trace shape_vm (vtrace_from p vm_init))
+  else if cmd =? "fk_run" then with_prog args (fun p => show_fk_result (run p))
+  else if cmd =? "vm_run" then with_prog args (fun p => show_vm_result (vrun p))
   else None.
